@@ -2,7 +2,7 @@ import RP.Driver.Common
 import RP.Model.Pgcopy
 /-! line-protocol driver for C17:
 `save <blueprint|metric|lookup> <n> <row values…>` → the bytes `save()` writes
-(`len=… fnv=… [hex=…]`) and what `load()` makes of them (`load=ok n=… cfnv=… [rows=…]`), or `panic`.
+(`len=… fnv=… [hex=…]`) and what `load()` makes of them (`load=ok n=… cfnv=… [rows=…]`), or `panic`.\n`saveb <blueprint|metric|lookup|transitions> <n> <row values…>` → `len=… fnv=…` only (large tables).
 Rows are given in the order the table iterates (= the order they are written). -/
 open RP.Driver RP.Pgcopy
 
@@ -80,6 +80,33 @@ def handle (line : String) : String :=
           match saveLookup? rows with
           | none => "panic"
           | some file => answer (some file) ((loadLookup file).map (fun m => m.map (fun (k, v) => [k, v])))
+        | none => "bad-op"
+      | _ => "bad-op"
+    | _, _ => "bad-op"
+  -- large tables: the file only (length + checksum; hex when short)
+  | "saveb" :: table :: n :: rest =>
+    match n.toNat?, parseNats rest with
+    | some n, some vals =>
+      let fileOnly (file : Option Bytes) : String :=
+        match file with
+        | none => "panic"
+        | some bytes => s!"len={bytes.length} fnv={hex16 (fnv bytes)}"
+      match table with
+      | "blueprint" =>
+        match (chunk 6 n vals).bind (·.mapM prow) with
+        | some rows => fileOnly (some (saveBlueprint rows))
+        | none => "bad-op"
+      | "metric" =>
+        match (chunk 2 n vals).bind (·.mapM mrow) with
+        | some rows => fileOnly (some (saveMetric rows))
+        | none => "bad-op"
+      | "lookup" =>
+        match (chunk 2 n vals).bind (·.mapM lrow) with
+        | some rows => fileOnly (saveLookup? rows)
+        | none => "bad-op"
+      | "transitions" =>
+        match (chunk 3 n vals).bind (·.mapM trow) with
+        | some rows => fileOnly (some (saveTransitions rows))
         | none => "bad-op"
       | _ => "bad-op"
     | _, _ => "bad-op"
